@@ -406,6 +406,9 @@ where
                 }
                 let tmp = &proof.well_formedness.as_ref();
                 let v = tmp.unwrap();
+                if v.len() != n_cols {
+                    return Err(Error::InvalidCommitment);
+                }
                 let r = sponge.squeeze_field_elements::<F>(n_rows);
                 // Upon sending `v` to the Verifier, add it to the sponge. The claim is that v = r.M.
                 sponge.absorb(&v);
@@ -414,6 +417,10 @@ where
             } else {
                 (None, None)
             };
+
+            if proof.opening.v.len() != n_cols {
+                return Err(Error::InvalidCommitment);
+            }
 
             // 1. Seed the transcript with the point and the recieved vector
             // TODO Consider removing the evaluation point from the transcript.
